@@ -371,6 +371,8 @@ def gen_txconsts():
         rows.append("(%s, %s, %s, %s)" % (G.coq_str(name), G.coq_Z(int(mm)), G.coq_Z(cls.MAX_TX_SIZE), G.coq_Z(coins)))
     t += "(* per Tx class: (name, MAX_MONEY in satoshi, MAX_TX_SIZE, coins in the source literal) *)\n"
     t += "Definition coin_table : list (string * Z * Z * Z) :=\n  [ " + ";\n    ".join(rows) + " ].\n"
+    for name, _, _ in classes:
+        t += "Definition coin_%s : string := %s.\n" % (name, G.coq_str(name))
     t += "Definition satoshi_per_coin : Z := %s.\n" % G.coq_Z(int(spc))
     t += "Definition max_block_size : Z := %s.\n\n" % G.coq_Z(lit_bs)
     # ---- coinbase constants
